@@ -7,8 +7,8 @@ import sys
 
 ID = sys.argv[1]
 note = sys.argv[2] if len(sys.argv) > 2 else ""
-src = "/tmp/seed/%s" % ID
-dst = "/verif/seeded/%s" % ID
+src = "%s/%s" % (os.environ.get("SEED_BASE", "/tmp/seed"), ID)
+dst = "/verif/seeded/%s%s" % (ID, os.environ.get("SEED_SUFFIX", ""))
 os.makedirs(dst, exist_ok=True)
 for f in ("patch.diff", "demo.py"):
     shutil.copy(os.path.join(src, f), os.path.join(dst, f))
